@@ -58,6 +58,8 @@ Definition prod_ok (A Bc P : fmat) : bool :=
      (combine Aq P).
 
 Definition dot1 (contig : bool) : fvec -> fvec -> float := if contig then udot m64 else sdot m64.
+Definition dot32 (contig : bool) : list spec_float -> list spec_float -> spec_float := if contig then udot m32 else sdot m32.
+Definition bits32 : list Z -> list spec_float := map b32_of_bits.
 Definition exps_ok (t : list (float * float)) : bool := forallb (fun kv => exp_ok (fst kv) (snd kv)) t.
 Definition lns_ok (t : list (float * float)) : bool := forallb (fun kv => ln_ok (fst kv) (snd kv)) t.
 
@@ -74,6 +76,8 @@ Inductive mcase :=
 (* link 0: OLS / elastic net ([lin_inplace]); 1, 2, 3: Tweedie GLM with identity, log, logit link *)
 | MLin (link : N) (contig : bool) (p : N) (w : fvec) (b : float) (exps : list (float * float))
        (X : fmat) (y0 : fvec) (out : option fvec)
+(* binary32 instances of OLS / elastic net: all values as bit patterns *)
+| MLin32 (contig : bool) (p : N) (w : list Z) (b : Z) (X : list (list Z)) (y0 : list Z) (out : option (list Z))
 | MLogit (contig : bool) (p : N) (w : fvec) (b thr : float) (exps : list (float * float)) (pos neg : N)
        (X : fmat) (y0 : list N) (out : option (list N))
 | MMlogit (p k : N) (W : fmat) (b : fvec) (classes : list N) (P : fmat)
@@ -119,6 +123,10 @@ Definition run_mcase (c : mcase) : N :=
                | _ => glm_inplace m64 dot (glm_inv link (tbl_fn exps)) (N.to_nat p) w b X y0
                end in
       N.lor (flag (opt_eqb vec_eqb m out) c_model) (flag (exps_ok exps) c_libm)
+  | MLin32 contig p w b X y0 out =>
+      flag (opt_eqb (list_eqb sf_eqb)
+              (lin_inplace m32 (dot32 contig) (N.to_nat p) (bits32 w) (b32_of_bits b) (map bits32 X) (bits32 y0))
+              (option_map bits32 out)) c_model
   | MLogit contig p w b thr exps pos neg X y0 out =>
       let m := logit_inplace m64 (dot1 contig) (tbl_fn exps) (N.to_nat p) w b thr pos neg X y0 in
       N.lor (flag (opt_eqb (list_eqb N.eqb) m out) c_model) (flag (exps_ok exps) c_libm)
